@@ -232,6 +232,9 @@ def _device(fam):
 def _call(inv, name):
     if ":" in name:
         fn, arg = name.split(":", 1)
+        if "=" in arg:
+            sid, val = arg.split("=", 1)
+            return lambda: getattr(inv, fn)(sid, int(val))
         return lambda: getattr(inv, fn)(arg)
     if name == "send_command":
         return lambda: inv.send_command(bytes.fromhex("f703891c0001"))
@@ -356,6 +359,11 @@ def run_count(case):
     world.net.add_device(C.HOST, C.port_of(tr), dev)
     inv = _make(goodwe, fam, tr, case["timeout"], case["retries"], case["keep_alive"])
     name = {"ES": "read_runtime_data", "ET": "read_sensor:modbus-35100", "DT": "read_sensor:modbus-30100"}[fam]
+    if fam == "ET" and len(case["history"]) % 2 == 0 and not case.get("overlap"):
+        # the same histories through a WRITE of a one-byte setting (a read-modify-write: the failure hits its first half)
+        name = "write_setting:eco_mode_1_switch=0"
+    elif fam == "DT" and len(case["history"]) % 2 == 0 and not case.get("overlap"):
+        name = "write_setting:grid_export_limit=50"
     recs = []
 
     async def overlapped():
